@@ -8,7 +8,7 @@ from vf import defgen as G
 from vf.harness import common as H
 
 PROPERTY = "C15"
-SETTINGS = {"witness_every": 1, "max_paths": 20000, "case_budget": 140.0, "budget_s": 170}
+SETTINGS = {"witness_every": 1, "max_paths": 20000, "case_budget": 140.0, "budget_s": 300}
 SETTINGS_THOROUGH = {"max_paths": 200000, "case_budget": 1200.0, "budget_s": 1500}
 BOUNDS = {"quick": "2 real threads parsing independent symbolic streams with the same type objects under a controlled scheduler (one "
                    "runnable at a time, hand-over only at 'line' events inside repository files or generated readers); which thread runs "
